@@ -585,4 +585,10 @@ pub fn run(cfg: &Cfg, rep: &mut Report) {
       });
     }
   }
+
+  // thread part: 2-3 threads each running a history on clones of one SubjectThreads (baton scheduler)
+  let n = cfg.n(6_000, 250_000);
+  super::thr::campaign(cfg, rep, "thr", n, 0xC06F, &mut |r: &mut Rng| super::thr::random_scen(r, 0), &|o, _| {
+    super::thr::must_receive(o).or_else(|| super::thr::common_order(o))
+  });
 }
